@@ -86,6 +86,9 @@ Proof. apply make_from_unfault. Qed.
 Lemma copy_ctor_unfault p src st' o : copy_ctor p src = (st', o) -> o <> Faulted -> copy_ctor None src = (st', o).
 Proof. unfold copy_ctor. destruct (iterate src); auto. apply make_from_unfault. Qed.
 
+Lemma make_from_obj_unfault p c src st' o : make_from_obj p c src = (st', o) -> o <> Faulted -> make_from_obj None c src = (st', o).
+Proof. unfold make_from_obj. destruct (iterate src); auto. apply make_from_unfault. Qed.
+
 Lemma copy_assign_unfault p dst src st' o : copy_assign p dst src = (st', o) -> o <> Faulted -> copy_assign None dst src = (st', o).
 Proof.
   unfold copy_assign. destruct (copy_ctor p src) as [tmp o1] eqn:E. intros H Hn.
